@@ -171,20 +171,27 @@ Fixpoint enc (t : ty) : val -> list Z := fun v =>
 (* ---------- offset-following decoder ---------- *)
 (* [slice bs p n]: n bytes starting at p, zero beyond the end (calldata semantics) *)
 Definition slice (bs : list Z) (p n : Z) : list Z :=
-  let s := firstn (Z.to_nat n) (skipn (Z.to_nat p) bs) in
-  s ++ zeros (n - zlen s).
+  if zlen bs <=? p then zeros n      (* entirely past the end (also keeps huge positions computable) *)
+  else let s := firstn (Z.to_nat n) (skipn (Z.to_nat p) bs) in
+       s ++ zeros (n - zlen s).
 Definition rd (bs : list Z) (p : Z) : Z := unbe (slice bs p 32).
 Definition to_signed256 (w : Z) : Z := if w <? 2 ^ 255 then w else w - W256.
 
 Definition dec_t := list Z -> Z -> option val.
 
+(* The decoders are parametric in the pointer addition [padd]:
+     Z.add                 unbounded positions (specification decoder [dec_at])
+     wadd = + mod 2^256    EVM pointer arithmetic ([dec_follow], what compiled code computes on calldata) *)
+Definition wadd (a b : Z) : Z := (a + b) mod W256.
+
 (* children of a complex value whose body starts at [loc]; [ho] = head offset of next child *)
-Fixpoint run_seq (ds : list (bool * Z * dec_t)) (bs : list Z) (loc ho : Z) : option (list val) :=
+Fixpoint run_seq_g (padd : Z -> Z -> Z) (ds : list (bool * Z * dec_t)) (bs : list Z) (loc ho : Z)
+  : option (list val) :=
   match ds with
   | [] => Some []
   | (dyn, hs, d) :: r =>
-      match (if dyn : bool then d bs (loc + rd bs (loc + ho)) else d bs (loc + ho)) with
-      | Some v => match run_seq r bs loc (ho + hs) with Some vs => Some (v :: vs) | None => None end
+      match (if dyn : bool then d bs (padd loc (rd bs (padd loc ho))) else d bs (padd loc ho)) with
+      | Some v => match run_seq_g padd r bs loc (ho + hs) with Some vs => Some (v :: vs) | None => None end
       | None => None
       end
   end.
@@ -192,8 +199,8 @@ Fixpoint run_seq (ds : list (bool * Z * dec_t)) (bs : list Z) (loc ho : Z) : opt
 Definition opt_list (o : option (list val)) : option val :=
   match o with Some vs => Some (VList vs) | None => None end.
 
-(* [dec_at t bs loc]: decode type t whose encoding starts at loc *)
-Fixpoint dec_at (t : ty) : dec_t := fun bs loc =>
+(* [dec_at_g padd t bs loc]: decode type t whose encoding starts at loc *)
+Fixpoint dec_at_g (padd : Z -> Z -> Z) (t : ty) : dec_t := fun bs loc =>
   match t with
   | TUInt _ | TBool | TAddress | TFlag _ =>
       let w := rd bs loc in if w <? int_hi t then Some (VInt w) else None
@@ -205,17 +212,21 @@ Fixpoint dec_at (t : ty) : dec_t := fun bs loc =>
       if forallb (Z.eqb 0) (skipn (Z.to_nat m) raw) then Some (VBytes (firstn (Z.to_nat m) raw)) else None
   | TBytes b | TString b =>
       let n := rd bs loc in
-      if n <=? b then Some (VBytes (slice bs (loc + 32) n)) else None
+      if n <=? b then Some (VBytes (slice bs (padd loc 32) n)) else None
   | TSArr t' n =>
-      opt_list (run_seq (repeat (is_dynamic t', emb_static t', dec_at t') (Z.to_nat n)) bs loc 0)
+      opt_list (run_seq_g padd (repeat (is_dynamic t', emb_static t', dec_at_g padd t') (Z.to_nat n)) bs loc 0)
   | TDArr t' b =>
       let n := rd bs loc in
       if n <=? b then
-        opt_list (run_seq (repeat (is_dynamic t', emb_static t', dec_at t') (Z.to_nat n)) bs (loc + 32) 0)
+        opt_list (run_seq_g padd (repeat (is_dynamic t', emb_static t', dec_at_g padd t') (Z.to_nat n)) bs (padd loc 32) 0)
       else None
   | TTuple ts =>
-      opt_list (run_seq (map (fun t' => (is_dynamic t', emb_static t', dec_at t')) ts) bs loc 0)
+      opt_list (run_seq_g padd (map (fun t' => (is_dynamic t', emb_static t', dec_at_g padd t')) ts) bs loc 0)
   end.
+
+Definition dec_at : ty -> dec_t := dec_at_g Z.add.
+(* decoding "following the offsets as given" with EVM arithmetic and zero-extended reads *)
+Definition dec_follow : ty -> dec_t := dec_at_g wadd.
 
 (* ---------- strict decoder: follow offsets, accept only the canonical encoding ---------- *)
 Fixpoint list_eqb (a b : list Z) : bool :=
